@@ -1,6 +1,7 @@
 package rules
 
 import (
+	"os"
 	"fmt"
 	"go/ast"
 	"go/token"
@@ -159,6 +160,9 @@ func c06Table(r *fw.Run, p *fw.Program, reach map[*ssa.Function]bool) {
 			env.AtomConst = map[string]int64{"len(" + g.Pkg.Pkg.Name() + "." + g.Name() + ")": n}
 			iv := env.At(idx, ins.Block())
 			if iv.HiInf && iv.LoInf {
+				if os.Getenv("C06_EXPLORE") != "" {
+					fmt.Printf("EXPLORE table-index unknown range: %s %s[%s] len %d at %s\n", fw.ShortFn(fn), g.Name(), env.Poly.Of(idx).String(), n, p.Rel(ins.Pos()))
+				}
 				return // range unknown: not this rule's class
 			}
 			ord[g.Name()]++
@@ -168,6 +172,9 @@ func c06Table(r *fw.Run, p *fw.Program, reach map[*ssa.Function]bool) {
 			if iv.HiInf {
 				// lower bound known only: cannot decide the upper bound; not this rule's class
 				if okLo {
+					if os.Getenv("C06_EXPLORE") != "" {
+						fmt.Printf("EXPLORE table-index no upper bound: %s %s[%s] len %d at %s\n", fw.ShortFn(fn), g.Name(), env.Poly.Of(idx).String(), n, p.Rel(ins.Pos()))
+					}
 					return
 				}
 			}
